@@ -1,12 +1,12 @@
 (* C12 — flat-integer interface of the model for the correspondence check.
-   input : nsf :: n :: off :: W :: version :: meta_ns :: nominal     (file length, init_params(nsamples) or nsf, _process_NP21 offset or 0)
+   input : nsf :: n :: off :: W :: version :: meta_ns :: nominal :: wc     (file length, init_params(nsamples) or nsf, _process_NP21 offset or 0)
            :: acq0 :: acq1 :: acq2 :: sns0 :: sns1 :: sns2 :: nsaved :: fsize :: rate :: subset_hi
            :: k :: sh_1 .. sh_k                 (shanks processed, in order)
            :: shank of every site (rest of the list)
    output: 0                                    (the conversion raises)
          | 1 :: (meta_ns_nominal nsf if nominal = 1 else meta_ns) :: nrows :: enc(positions) ++ k ++ for each processed shank:
              enc(chns) ++ [acq0;acq1;acq2;sns0;sns1;sns2;nsaved;fsize;rate;subset_hi]
-             ++ enc(subset_orig) ++ [original_meta; shank_key; nbytes; nc; fs; is_lf; nsync; ns_open; fudged] *)
+             ++ enc(subset_orig) ++ [original_meta; shank_key; nbytes; nc; fs; is_lf; nsync; ns_open; fudged] ++ (enc(per column: filtered, AP-file column) if wc = 1 else [0]) *)
 From Coq Require Import ZArith List Bool.
 From IBL.lib Require Import PyInt RunLib.
 From IBL.C12 Require Import Model.
@@ -21,12 +21,15 @@ Definition enc_file (f : list Z * meta * Z * (Z * Z * bool * Z * Z)) : list Z :=
   let '(chns, m', nb, (nc, fs, islf, nsy, nso)) := f in
   enc_zlist chns ++ enc_meta m' ++ [nb; nc; fs; enc_bool islf; nsy; nso].
 
-Definition enc_file_f (meta_ns : Z) (f : list Z * meta * Z * (Z * Z * bool * Z * Z)) : list Z :=
-  let '(_, m', nb, _) := f in enc_file f ++ [enc_bool (rd_fudged m' nb meta_ns)].
+(* m0: the metadata of the AP file; per column of the lf file: filtered?, column of the AP file *)
+Definition enc_file_f (wc : Z) (m0 : meta) (meta_ns : Z) (f : list Z * meta * Z * (Z * Z * bool * Z * Z)) : list Z :=
+  let '(chns, m', nb, _) := f in
+  enc_file f ++ [enc_bool (rd_fudged m' nb meta_ns)]
+  ++ (if wc =? 1 then enc_list (fun s => [enc_bool (fst s); snd s]) (lf_col_sources m0 chns) else [0]).
 
 Definition run (inp : list Z) : list Z :=
   match inp with
-  | nsf :: ns :: off :: W :: version :: meta_ns :: nominal
+  | nsf :: ns :: off :: W :: version :: meta_ns :: nominal :: wc
     :: a0 :: a1 :: a2 :: s0 :: s1 :: s2 :: nsv :: fsz :: rt :: shi :: k :: rest =>
       let shs := firstn (Z.to_nat k) rest in
       let shanks := skipn (Z.to_nat k) rest in
@@ -36,7 +39,7 @@ Definition run (inp : list Z) : list Z :=
       match lf_nsamples_off nsf off ns W, lf_positions_off nsf off ns W with
       | Some n, Some ps =>
           1 :: (if nominal =? 1 then meta_ns_nominal nsf else meta_ns) :: n :: enc_zlist ps
-            ++ enc_list (fun sh => enc_file_f meta_ns (lf_file version m shanks n meta_ns sh)) shs
+            ++ enc_list (fun sh => enc_file_f wc m meta_ns (lf_file version m shanks n meta_ns sh)) shs
       | _, _ => [0]
       end
   | _ => [-999]
